@@ -576,8 +576,7 @@ theorem ctfTR_correct_partial (target : MG Name) (ds : List Domain) (o c : Event
 --       den (F.env graphs) σ' x σ = probEventOpt F.target ν (outcomes ++ conditions) / probEventOpt F.target ν conditions
 --   PROVED inside the decidable class `ctfTRSoundClass` (`ctfTR_sound_partial`; both identities of `ctfTR_sound_of_parts`
 --   are discharged by `ctfTR_link`).  Outside the class:
---   * FALSE of the current code on the inputs of the open findings cond:value:outcome-lookup-miss / outcome-also-condition
---     (an outcome is dropped from `D_*`: `OutcomesFound = false`), cond:value:two_values (no reading exists),
+--   * FALSE of the current code on the inputs of the open findings cond:value:two_values (no reading exists),
 --     cond:value:multi_world (a vertex in two worlds: the class asks for ONE world across all ancestral components),
 --     cond:value:literal_bound (a literal subscript naming a summed vertex);
 --   * NOT DECIDED where the class is stricter than the code needs (quick stream, seed 0: 1322 answered conditional cases
@@ -586,7 +585,14 @@ theorem ctfTR_correct_partial (target : MG Name) (ds : List Domain) (o c : Event
 --     e.g. the subscript names an OUTCOME with the same value, `P(Y_x = y, X = x | Z = z)` — the denominator's sum over `X`
 --     also moves the subscript, harmless by composition — or sits on a condition whose component holds no outcome), a vertex
 --     in two worlds on which the vertex-wise bookkeeping happens to be right, e.g. `P(Y_x = y | X = x, Y = y)` (15, all
---     accepted), an outcome not found under its own name that is dropped without changing the value (27, 15 accepted).
+--     accepted), and — since repo f335599 — an outcome that is not given in minimal form (`OutcomesFound = false`: a
+--     causally irrelevant subscript; the code now looks it up under `‖Y_x‖` of the cut graph, the former findings
+--     cond:value:outcome-lookup-miss / outcome-also-condition are fixed and the exact oracle accepts these answers, but the
+--     theorem is proved for queries whose outcomes are their own lookup keys, `lookup_self`).
+--   The ZERO clause (`ctfTR_zero_sound_partial`) now needs `OutcomesFound` next to `DstarOneWorld`: two outcomes `Y_x`, `Y`
+--   whose lookup keys coincide (X → Z → Y, condition `Z_x`: the key of `Y_x` is `Y`) with different values make SIMPLIFY
+--   answer Zero although `P(Y_x = y, Y = y' | Z_x = z) > 0` (the condition is in another world; harness class
+--   cond:zero:multi_world).
 --     The cases without a reading (a name with two value symbols: finding cond:value:two_values) are outside every reading
 --     of "the returned event's values".
 
